@@ -1,5 +1,7 @@
 """C16 - buzzer protocol (firmware only: the host Buzzer is a placeholder, so the specification is the abstract event
 program written from the property text).  Fragments come from the real emitter and are translated by cxx2py."""
+import json
+import os
 import re
 import time
 
@@ -224,7 +226,21 @@ def build():
                                    f"abs({LAST} - {float(last_f)}) < 0.001"],
                  note=f"score table of '{mname}' read from the emitter: {len(tab['sequence'])} notes, default tempo {default}")
     _B["info"] = {k: {"sha": v["sha"], "prims": v["prims"]} for k, v in info.items()}
+    _B["replay"] = {v["pyname"]: (v, specs[k]["opaque"], specs[k].get("where", "setup")) for k, v in info.items()}
     return reg
+
+
+def replay_model(o):
+    """replay a counterexample of a fragment contract on the really emitted C++ (cxxvc/fwreplay.py)"""
+    from cxxvc import fwreplay
+    from pyvc import loader
+    unit = o["name"].split("/")[1].split("[")[0]
+    if unit not in _B.get("replay", {}):
+        return None
+    tr, opaque, where = _B["replay"][unit]
+    reg = build()
+    mods = loader.load(sorted({f for (f, _) in reg.contracts if f != "<extern>"}))
+    return fwreplay.replay(reg, mods, FW, unit, tr, opaque, where, o.get("model") or {}, o["name"], engine_setup=engine_setup)
 
 
 def extra_obligations(mods, tier, seed):
@@ -256,8 +272,20 @@ def extra_obligations(mods, tier, seed):
     out.append({"name": "C16/arms/getters-read-shadow-variables", "status": "discharged" if ok else "sat", "backend": "enum",
                 "where": "get_frequency/get_last_frequency/get_state are the shadow variables the fragments maintain", "time": 0.0,
                 "replay": {"cpp": cpp[-400:]}, "replay_confirmed": not ok})
+    # the named tunes are data: the reference for "exactly the named tune's notes" and the default tempi is the score table of the pinned
+    # tree (contracts/c16_scores.json); the melody fragment contracts above are stated against the emitter's live table
+    golden = json.load(open(os.path.join(os.path.dirname(os.path.abspath(__file__)), "c16_scores.json")))
+    live = {k: {"tempo": float(v["tempo"]), "sequence": [[float(f), float(b)] for f, b in v["sequence"]]} for k, v in Em._BUZZER_MELODIES.items()}
+    diffs = [k for k in sorted(set(golden) | set(live)) if golden.get(k) != live.get(k)]
+    out.append({"name": "C16/arms/score-table-is-the-pinned-one", "status": "discharged" if not diffs else "sat", "backend": "enum",
+                "where": "the emitter's melody table (notes, beats, default tempo of all tunes) equals the pinned reference", "time": 0.0,
+                "replay": {"tunes_that_differ": diffs, "live": {k: live.get(k) for k in diffs[:2]}, "pinned": {k: golden.get(k) for k in diffs[:2]}},
+                "replay_confirmed": bool(diffs)})
     from progs.concat import concat_obligations
     out += concat_obligations("C16", {"Buzzer": ("bz = Buzzer(8)", ["bz.play_tone(440)", "bz.play_tone(330, 100)", "bz.stop()", "bz.beep(500, on_ms=20, off_ms=10, times=2)",
+                                                                      "bz.sweep(200, 400, duration_ms=100, steps=4)", "bz.melody('success')", "bz.beep(times=0)"])})
+    from progs.concat import scope_obligations
+    out += scope_obligations("C16", {"Buzzer": ("bz = Buzzer(8)", ["bz.play_tone(440)", "bz.play_tone(330, 100)", "bz.stop()", "bz.beep(500, on_ms=20, off_ms=10, times=2)",
                                                                       "bz.sweep(200, 400, duration_ms=100, steps=4)", "bz.melody('success')", "bz.beep(times=0)"])})
     # parser arms: a non-integer literal argument behaves like the same value in a variable (tone/delay trace on the firmware mock);
     # the fragment contracts above take the IR node as given, this ties the node to the source text
